@@ -127,6 +127,25 @@ theorem readLines_unlines (lines : List Text) (h : ∀ l ∈ lines, '\n' ∉ l) 
     readLines (unlines lines) = lines := by
   simp [readLines, splitOn_unlines lines h]
 
+theorem readLines_joinWith (lines : List Text) (h : ∀ l ∈ lines, '\n' ∉ l)
+    (hl : ∀ last, lines.getLast? = some last → last ≠ []) : readLines (joinWith '\n' lines) = lines := by
+  cases hn : lines with
+  | nil => simp [joinWith, readLines, splitOn]
+  | cons a t =>
+    rw [← hn]
+    have hne : lines ≠ [] := by rw [hn]; simp
+    unfold readLines
+    rw [splitOn_joinWith '\n' lines hne h]
+    have : lines.getLast? ≠ some [] := fun e => hl [] e rfl
+    simp [this]
+
+theorem readLines_renderLines (final : Bool) (lines : List Text) (h : ∀ l ∈ lines, '\n' ∉ l)
+    (hl : final = false → ∀ last, lines.getLast? = some last → last ≠ []) :
+    readLines (renderLines final lines) = lines := by
+  cases final with
+  | true => exact readLines_unlines lines h
+  | false => exact readLines_joinWith lines h (hl rfl)
+
 theorem stripLeft_of_head (t : Text) (h : ∀ c, t.head? = some c → isSpace c = false) : stripLeft t = t := by
   cases t with
   | nil => rfl
@@ -241,11 +260,17 @@ theorem mem_txt_line (ch : List String) (ht : ∀ s ∈ ch, GoodToken s) :
     have := (ht s hs).2 _ hc
     simp [isSpace] at this
 
-theorem parseTxt_render (chunks : List (List String)) (hc : ∀ ch ∈ chunks, ch ≠ [])
+theorem txt_line_ne_nil (ch : List String) (hne : ch ≠ []) (ht : ∀ s ∈ ch, GoodToken s) :
+    joinWith ' ' (ch.map String.toList) ≠ [] := by
+  cases ch with
+  | nil => exact absurd rfl hne
+  | cons s rest => exact joinWith_ne_nil ' ' s.toList _ (ht s (by simp)).1
+
+theorem parseTxt_render (final : Bool) (chunks : List (List String)) (hc : ∀ ch ∈ chunks, ch ≠ [])
     (ht : ∀ ch ∈ chunks, ∀ s ∈ ch, GoodToken s) :
-    parseTxt (renderTxt chunks) = linearGraph chunks.flatten := by
+    parseTxt (renderTxt final chunks) = linearGraph chunks.flatten := by
   unfold parseTxt renderTxt
-  rw [readLines_unlines]
+  rw [readLines_renderLines]
   · congr 1
     rw [List.flatMap_map]
     induction chunks with
@@ -256,7 +281,10 @@ theorem parseTxt_render (chunks : List (List String)) (hc : ∀ ch ∈ chunks, c
   · intro l hl
     obtain ⟨ch, hch, rfl⟩ := List.mem_map.mp hl
     exact mem_txt_line ch (ht ch hch)
-
+  · intro _ last hlast
+    have hm := List.mem_of_getLast? hlast
+    obtain ⟨ch, hch, rfl⟩ := List.mem_map.mp hm
+    exact txt_line_ne_nil ch (hc ch hch) (ht ch hch)
 
 /-! ### E. one-letter files -/
 
@@ -297,12 +325,13 @@ theorem takeWhile_all {α} (p : α → Bool) (l : List α) (h : ∀ x ∈ l, p x
   | nil => rfl
   | cons x xs ih => simp [h x (by simp), ih (fun y hy => h y (by simp [hy]))]
 
-theorem parseFasta_render (T : Tabs) (a : Alphabet) (header : Text) (chunks : List Text)
+theorem parseFasta_render (T : Tabs) (a : Alphabet) (final : Bool) (header : Text) (chunks : List Text)
     (hh : '\n' ∉ header) (hid : identify [header] = some (flagsOf a))
-    (hc : ∀ ch ∈ chunks, ∀ c ∈ ch, isSpace c = false ∧ c ≠ '>') :
-    (parseFasta T (renderFasta header chunks)).map toMeta = specSeqFile T a false chunks.flatten := by
+    (hc : ∀ ch ∈ chunks, ∀ c ∈ ch, isSpace c = false ∧ c ≠ '>')
+    (hf : final = false → header ≠ [] ∧ ∀ ch ∈ chunks, ch ≠ []) :
+    (parseFasta T (renderFasta final header chunks)).map toMeta = specSeqFile T a false chunks.flatten := by
   unfold parseFasta renderFasta
-  rw [readLines_unlines]
+  rw [readLines_renderLines]
   · simp only [hid, Option.bind_some]
     rw [takeWhile_all]
     · rw [parsePlain_spec, flatMap_strip_clean _ (fun ch hch c hcc => (hc ch hch c hcc).1)]
@@ -315,7 +344,11 @@ theorem parseFasta_render (T : Tabs) (a : Alphabet) (header : Text) (chunks : Li
     · intro hm
       have := (hc l hl _ hm).1
       simp [isSpace] at this
-
+  · intro hfin last hlast
+    have hm := List.mem_of_getLast? hlast
+    rcases List.mem_cons.mp hm with rfl | hm
+    · exact (hf hfin).1
+    · exact (hf hfin).2 last hm
 
 /-! ### F. circular sequences -/
 
@@ -817,12 +850,6 @@ theorem addConnectEdge_spec (bs : List Block) (g : SGraph) (hg : g.nodes = (spec
         simp only [h3, ha, false_and, if_false, Option.map_none]
         split <;> simp
 
-/-- the items of the parsed connect records as `(i, j, a, b)` quadruples -/
-def flatConnects (cs : List (Nat × Nat × List (Nat × Nat))) : List (Nat × Nat × Nat × Nat) :=
-  cs.flatMap fun c => c.2.2.map fun ab => (c.1, c.2.1, ab.1, ab.2)
-
-def addEdges (g : SGraph) (es : List (Nat × Nat)) : SGraph := es.foldl (fun g e => g.addEdge e.1 e.2) g
-
 theorem addEdges_nodes (g : SGraph) (es : List (Nat × Nat)) : (addEdges g es).nodes = g.nodes := by
   induction es generalizing g with
   | nil => rfl
@@ -997,6 +1024,422 @@ theorem modifyLast_append_singleton (f : String → String) (mid : List String) 
 theorem suffix_shape (x y : String) (mid : List String) :
     modifyLast (· ++ "3") ((x :: (mid ++ [y])).modifyHead (· ++ "5")) = (x ++ "5") :: (mid ++ [y ++ "3"]) := by
   rw [List.modifyHead_cons, modifyLast_cons_ne _ _ _ (by simp), modifyLast_append_singleton]
+
+
+/-! ### K. `.ig` files -/
+
+theorem dropWhile_all {α} (p : α → Bool) (l : List α) (h : ∀ x ∈ l, p x = true) : l.dropWhile p = [] := by
+  induction l with
+  | nil => rfl
+  | cons x xs ih => simp [h x (by simp), ih (fun y hy => h y (by simp [hy]))]
+
+theorem splitComments_clean (t : Text) (h : ∀ c ∈ t, isSpace c = false ∧ c ≠ ';') : splitComments t = (t, []) := by
+  unfold splitComments
+  have hp : ∀ c ∈ t, (c != ';') = true := fun c hc => by simpa using (h c hc).2
+  rw [takeWhile_all _ t hp, dropWhile_all _ t hp]
+  simp only [List.drop_nil]
+  rw [strip_noSpace t (fun c hc => (h c hc).1)]
+  rfl
+
+theorem igScan_skip (l : Text) (rest clean cm : List Text) (h : (splitComments l).1 = []) :
+    igScan (l :: rest) clean cm = igScan rest clean (cm ++ [(splitComments l).2]) := by
+  rw [igScan]
+  simp only [h, List.getLast?_nil]
+
+theorem igScan_keep (l : Text) (rest clean cm : List Text) (ch : Char)
+    (h : (splitComments l).1.getLast? = some ch) (h1 : ch ≠ '1') (h2 : ch ≠ '2') :
+    igScan (l :: rest) clean cm = igScan rest (clean ++ [(splitComments l).1]) (cm ++ [(splitComments l).2]) := by
+  rw [igScan]
+  simp only [h]
+  have : (ch == '1' || ch == '2') = false := by simp [h1, h2]
+  simp [this]
+
+theorem igScan_end (l : Text) (rest clean cm : List Text) (ch : Char)
+    (h : (splitComments l).1.getLast? = some ch) (h12 : ch = '1' ∨ ch = '2') :
+    igScan (l :: rest) clean cm = some (clean ++ [(splitComments l).1.dropLast], cm ++ [(splitComments l).2], ch) := by
+  rw [igScan]
+  simp only [h]
+  have : (ch == '1' || ch == '2') = true := by rcases h12 with rfl | rfl <;> simp
+  simp [this]
+
+theorem igScan_comments (comments rest clean cm : List Text) (h : ∀ c ∈ comments, (splitComments c).1 = []) :
+    igScan (comments ++ rest) clean cm = igScan rest clean (cm ++ comments.map fun l => (splitComments l).2) := by
+  induction comments generalizing cm with
+  | nil => simp
+  | cons c cs ih =>
+    rw [List.cons_append, igScan_skip c _ clean cm (h c (by simp)), ih _ (fun x hx => h x (by simp [hx]))]
+    simp
+
+theorem igScan_chunks (chunks rest clean cm : List Text) (h : ∀ ch ∈ chunks, ch ≠ [] ∧ ∀ c ∈ ch, SeqChar c) :
+    igScan (chunks ++ rest) clean cm = igScan rest (clean ++ chunks) (cm ++ List.replicate chunks.length []) := by
+  induction chunks generalizing clean cm with
+  | nil => simp
+  | cons c cs ih =>
+    obtain ⟨hne, hcl⟩ := h c (by simp)
+    have hsc := splitComments_clean c (fun x hx => ⟨(hcl x hx).1, (hcl x hx).2.1⟩)
+    obtain ⟨lastc, hlast⟩ : ∃ x, c.getLast? = some x := by
+      cases hc : c.getLast? with
+      | none => simp at hc; exact absurd hc hne
+      | some x => exact ⟨x, rfl⟩
+    have hmem := List.mem_of_getLast? hlast
+    rw [List.cons_append, igScan_keep c _ clean cm lastc (by rw [hsc]; exact hlast) (hcl _ hmem).2.2.1 (hcl _ hmem).2.2.2,
+      ih _ _ (fun x hx => h x (by simp [hx])), hsc]
+    simp [List.replicate_succ]
+
+theorem any_hasSub_replicate (pat : Text) (hp : pat ≠ []) (cs : List Text) (k : Nat) :
+    (cs ++ List.replicate k []).any (hasSub pat) = cs.any (hasSub pat) := by
+  rw [List.any_append]
+  have : (List.replicate k ([] : Text)).any (hasSub pat) = false := by
+    rw [List.any_eq_false]
+    intro x hx
+    rw [List.eq_of_mem_replicate hx]
+    cases pat with
+    | nil => exact absurd rfl hp
+    | cons a b => simp [hasSub]
+  rw [this, Bool.or_false]
+
+theorem identify_replicate (cs : List Text) (k : Nat) : identify (cs ++ List.replicate k []) = identify cs := by
+  unfold identify
+  rw [any_hasSub_replicate _ (by decide), any_hasSub_replicate _ (by decide), any_hasSub_replicate _ (by decide)]
+
+theorem igScan_render (comments : List Text) (title : Text) (chunks : List Text) (last : Text) (ter tch : Char)
+    (hcm : ∀ c ∈ comments, (splitComments c).1 = [])
+    (htitle : (splitComments title).1.getLast? = some tch ∧ tch ≠ '1' ∧ tch ≠ '2')
+    (hc : ∀ ch ∈ chunks, ch ≠ [] ∧ ∀ c ∈ ch, SeqChar c) (hl : ∀ c ∈ last, SeqChar c)
+    (hter : ter = '1' ∨ ter = '2') :
+    igScan (comments ++ [title] ++ chunks ++ [last ++ [ter]]) [] [] =
+      some ((splitComments title).1 :: (chunks ++ [last]),
+            ((comments ++ [title]).map fun l => (splitComments l).2) ++ List.replicate (chunks.length + 1) [], ter) := by
+  have hlast : splitComments (last ++ [ter]) = (last ++ [ter], []) := by
+    apply splitComments_clean
+    intro c hc'
+    rcases List.mem_append.mp hc' with h | h
+    · exact ⟨(hl c h).1, (hl c h).2.1⟩
+    · simp only [List.mem_singleton] at h
+      subst h
+      rcases hter with rfl | rfl <;> exact ⟨by decide, by decide⟩
+  rw [List.append_assoc, List.append_assoc, igScan_comments _ _ _ _ hcm]
+  rw [List.singleton_append, igScan_keep title _ _ _ tch htitle.1 htitle.2.1 htitle.2.2]
+  rw [igScan_chunks _ _ _ _ hc]
+  rw [igScan_end (last ++ [ter]) [] _ _ ter (by rw [hlast]; simp) hter, hlast]
+  simp [List.replicate_succ', List.map_append]
+
+theorem parseIg_render (T : Tabs) (a : Alphabet) (final : Bool) (comments : List Text) (title : Text)
+    (chunks : List Text) (last : Text) (ter tch : Char)
+    (hcm : ∀ c ∈ comments, '\n' ∉ c ∧ (splitComments c).1 = [])
+    (htitle : '\n' ∉ title ∧ (splitComments title).1.getLast? = some tch ∧ tch ≠ '1' ∧ tch ≠ '2')
+    (hid : identify ((comments ++ [title]).map fun l => (splitComments l).2) = some (flagsOf a))
+    (hc : ∀ ch ∈ chunks, ch ≠ [] ∧ ∀ c ∈ ch, SeqChar c) (hl : ∀ c ∈ last, SeqChar c)
+    (hter : ter = '1' ∨ ter = '2') :
+    (parseIg T (renderIg final comments title chunks last ter)).map toMeta
+      = specSeqFile T a (ter == '2') (chunks.flatten ++ last) := by
+  have hnl : ∀ c, SeqChar c → c ≠ '\n' := by
+    intro c hc' e
+    subst e
+    have := hc'.1
+    simp [isSpace] at this
+  unfold parseIg renderIg
+  rw [readLines_renderLines]
+  · rw [igScan_render comments title chunks last ter tch (fun c hc' => (hcm c hc').2) htitle.2 hc hl hter]
+    simp only [Option.bind_some, identify_replicate, hid, List.drop_succ_cons, List.drop_zero]
+    have hflat : (chunks ++ [last]).flatMap strip = chunks.flatten ++ last := by
+      rw [flatMap_strip_clean]
+      · simp
+      · intro ch hch c hcc
+        rcases List.mem_append.mp hch with h | h
+        · exact ((hc ch h).2 c hcc).1
+        · simp only [List.mem_singleton] at h
+          subst h
+          exact (hl c hcc).1
+    rcases hter with rfl | rfl
+    · have : (('1' : Char) == '2') = false := by decide
+      simp only [this, Bool.false_eq_true, if_false]
+      have hb : ∀ o : Option SGraph, (o.bind fun g => some g) = o := fun o => by cases o <;> rfl
+      rw [hb, parsePlain_spec, hflat]
+    · have : (('2' : Char) == '2') = true := by decide
+      simp only [this, if_true]
+      have := parsePlain_circular T a (chunks ++ [last])
+      rw [hflat] at this
+      exact this
+  · intro l hl'
+    simp only [List.mem_append, List.mem_singleton] at hl'
+    rcases hl' with ((h | h) | h) | h
+    · exact (hcm l h).1
+    · subst h; exact htitle.1
+    · intro hm; exact hnl _ ((hc l h).2 _ hm) rfl
+    · subst h
+      intro hm
+      rcases List.mem_append.mp hm with h | h
+      · exact hnl _ (hl _ h) rfl
+      · simp only [List.mem_singleton] at h
+        rcases hter with rfl | rfl <;> exact absurd h (by decide)
+  · intro _ lastl hlast
+    simp only [List.getLast?_append, List.getLast?_singleton] at hlast
+    cases hlast
+    simp
+
+
+/-! ### L. terminal renamings and labels -/
+
+theorem key_inj (l : List SNode) (h : (l.map (·.key)).Nodup) (a b : SNode) (ha : a ∈ l) (hb : b ∈ l)
+    (e : a.key = b.key) : a = b := by
+  induction l with
+  | nil => simp at ha
+  | cons x xs ih =>
+    simp only [List.map_cons, List.nodup_cons, List.mem_map, not_exists, not_and] at h
+    rcases List.mem_cons.mp ha with rfl | ha' <;> rcases List.mem_cons.mp hb with rfl | hb'
+    · rfl
+    · exact absurd e.symm (h.1 b hb')
+    · exact absurd e (h.1 a ha')
+    · exact ih h.2 ha' hb'
+
+/-- one renaming applied to one node -/
+def stepMod (t : List Nat) (n : SNode) (m : Nat × String) : SNode :=
+  if n.seqid == some m.1 && t.contains n.key then { n with resname := m.2 } else n
+
+theorem mods_nodes (t : List Nat) (mods : List (Nat × String)) (g : SGraph) :
+    mods.foldl (applyModification t) g = ⟨g.nodes.map fun n => mods.foldl (stepMod t) n, g.edges⟩ := by
+  induction mods generalizing g with
+  | nil => simp
+  | cons m rest ih =>
+    rw [List.foldl_cons, ih]
+    simp only [applyModification, List.map_map]
+    congr 1
+
+theorem stepMod_frame (t : List Nat) (mods : List (Nat × String)) (n : SNode) :
+    ∃ r, mods.foldl (stepMod t) n = { n with resname := r } := by
+  induction mods generalizing n with
+  | nil => exact ⟨n.resname, rfl⟩
+  | cons m rest ih =>
+    rw [List.foldl_cons]
+    obtain ⟨r, hr⟩ := ih (stepMod t n m)
+    rw [hr]
+    unfold stepMod
+    split
+    · exact ⟨r, rfl⟩
+    · exact ⟨r, rfl⟩
+
+/-- the last matching renaming wins -/
+theorem stepMod_last (t : List Nat) (mods : List (Nat × String)) (n : SNode) :
+    mods.foldl (stepMod t) n =
+      match (mods.filter fun m => n.seqid == some m.1 && t.contains n.key).getLast? with
+      | some m => { n with resname := m.2 }
+      | none => n := by
+  induction mods using rev_induction with
+  | h0 => rfl
+  | h1 ms m ih =>
+    rw [List.foldl_append, List.foldl_cons, List.foldl_nil, List.filter_append]
+    obtain ⟨r, hr⟩ := stepMod_frame t ms n
+    by_cases hc : (n.seqid == some m.1 && t.contains n.key) = true
+    · have : [m].filter (fun m => n.seqid == some m.1 && t.contains n.key) = [m] := by rw [List.filter_cons, if_pos hc]; rfl
+      rw [this, List.getLast?_append]
+      simp only [List.getLast?_singleton, Option.some_or]
+      rw [hr]
+      unfold stepMod
+      simp only at hc ⊢
+      rw [if_pos hc]
+    · have : [m].filter (fun m => n.seqid == some m.1 && t.contains n.key) = [] := by rw [List.filter_cons, if_neg hc]; rfl
+      rw [this, List.append_nil, ← ih, hr]
+      unfold stepMod
+      simp only at hc ⊢
+      rw [if_neg hc]
+
+theorem terminal_contains (g : SGraph) (n : SNode) (hn : n ∈ g.nodes) :
+    (terminalNodes g).contains n.key = (g.degree n.key == 1) := by
+  unfold terminalNodes
+  by_cases hd : (g.degree n.key == 1) = true
+  · rw [hd, List.contains_eq_mem, decide_eq_true_eq, List.mem_map]
+    exact ⟨n, List.mem_filter.mpr ⟨hn, hd⟩, rfl⟩
+  · have hd' : (g.degree n.key == 1) = false := by simpa using hd
+    rw [hd']
+    rw [List.contains_eq_mem, decide_eq_false_iff_not, List.mem_map]
+    rintro ⟨n', hn', hk⟩
+    have := (List.mem_filter.mp hn').2
+    rw [hk] at this
+    exact hd this
+
+/-- one label applied to one node -/
+def stepTag (n : SNode) (t : Nat × String × String) : SNode :=
+  if n.seqid == some t.1 then { n with tags := n.tags.set t.2.1 t.2.2 } else n
+
+theorem stepTag_key (n : SNode) (t : Nat × String × String) : (stepTag n t).key = n.key := by
+  unfold stepTag; split <;> rfl
+
+theorem stepTag_seqid (n : SNode) (t : Nat × String × String) : (stepTag n t).seqid = n.seqid := by
+  unfold stepTag; split <;> rfl
+
+theorem findSeqid_map (g : SGraph) (f : SNode → SNode) (E : List REdge) (hk : ∀ n, (f n).key = n.key)
+    (hs : ∀ n, (f n).seqid = n.seqid) (s : Nat) : (⟨g.nodes.map f, E⟩ : SGraph).findSeqid s = g.findSeqid s := by
+  simp only [SGraph.findSeqid, List.filter_map, List.map_map]
+  have h1 : ((fun (n : SNode) => n.seqid == some s) ∘ f) = fun n => n.seqid == some s := by
+    funext n; simp [hs]
+  have h2 : ((fun (n : SNode) => n.key) ∘ f) = fun n => n.key := by
+    funext n; simp [hk]
+  rw [h1, h2]
+
+theorem found_contains (g : SGraph) (hk : (g.nodes.map (·.key)).Nodup) (s : Nat) (n : SNode) (hn : n ∈ g.nodes) :
+    (g.findSeqid s).contains n.key = (n.seqid == some s) := by
+  unfold SGraph.findSeqid
+  by_cases hd : (n.seqid == some s) = true
+  · rw [hd, List.contains_eq_mem, decide_eq_true_eq, List.mem_map]
+    exact ⟨n, List.mem_filter.mpr ⟨hn, hd⟩, rfl⟩
+  · have hd' : (n.seqid == some s) = false := by simpa using hd
+    rw [hd', List.contains_eq_mem, decide_eq_false_iff_not, List.mem_map]
+    rintro ⟨n', hn', hkey⟩
+    have hmem := List.mem_filter.mp hn'
+    have : n' = n := key_inj g.nodes hk n' n hmem.1 hn hkey
+    rw [this] at hmem
+    exact hd hmem.2
+
+theorem applyTag_valid (g : SGraph) (hk : (g.nodes.map (·.key)).Nodup) (s : Nat) (attr v : String)
+    (probs : List (String × Bool)) (hp : pickCertain probs = some v) (hne : g.findSeqid s ≠ []) :
+    applyTag g (s, attr, probs) = some ⟨g.nodes.map fun n => stepTag n (s, attr, v), g.edges⟩ := by
+  unfold applyTag
+  have h1 : (g.findSeqid s).isEmpty = false := by
+    cases h : g.findSeqid s with
+    | nil => exact absurd h hne
+    | cons _ _ => rfl
+  simp only [h1, Bool.false_eq_true, if_false, hp, Option.map_some]
+  congr 2
+  apply List.map_congr_left
+  intro n hn
+  rw [found_contains g hk s n hn]
+  rfl
+
+theorem stepTag_fold (stags : List (Nat × String × String)) (n : SNode) :
+    stags.foldl stepTag n =
+      { n with tags := (stags.filter fun t => n.seqid == some t.1).foldl (fun a t => a.set t.2.1 t.2.2) n.tags } := by
+  induction stags generalizing n with
+  | nil => rfl
+  | cons t rest ih =>
+    rw [List.foldl_cons, ih, List.filter_cons, stepTag_seqid]
+    unfold stepTag
+    by_cases hc : (n.seqid == some t.1) = true
+    · simp only [hc, if_true, List.foldl_cons]
+    · simp only [hc]
+      rfl
+
+theorem tags_foldM (bs : List Block) (ptags : List (Nat × String × List (String × Bool))) :
+    ∀ (stags : List (Nat × String × String)) (g : SGraph),
+    ptags.mapM (fun t => (pickCertain t.2.2).map fun v => (t.1, t.2.1, v)) = some stags →
+    (∀ t ∈ stags, ∃ b, bs[t.1]? = some b ∧ b.names ≠ []) →
+    (g.nodes.map (·.key)).Nodup → (∀ s, g.findSeqid s = (specUnion bs).findSeqid s) →
+    ptags.foldlM applyTag g = some ⟨g.nodes.map fun n => stags.foldl stepTag n, g.edges⟩ := by
+  induction ptags with
+  | nil =>
+    intro stags g hp _ _ _
+    simp at hp
+    subst hp
+    simp
+  | cons pt rest ih =>
+    intro stags g hp hv hk hf
+    simp only [List.mapM_cons, Option.bind_eq_bind, Option.bind_eq_some_iff, Option.map_eq_some_iff] at hp
+    obtain ⟨t, ⟨v, hv1, rfl⟩, stags', hrest, hst⟩ := hp
+    simp only [Option.pure_def, Option.some.injEq] at hst
+    subst hst
+    obtain ⟨b, hb, hbn⟩ := hv (pt.1, pt.2.1, v) (by simp)
+    have hne : g.findSeqid pt.1 ≠ [] := by
+      rw [hf, specUnion_findSeqid, hb]
+      intro e
+      have hl := congrArg List.length e
+      simp only [List.length_range', List.length_nil] at hl
+      exact hbn (List.eq_nil_of_length_eq_zero hl)
+    have happ : applyTag g pt = some ⟨g.nodes.map fun n => stepTag n (pt.1, pt.2.1, v), g.edges⟩ :=
+      applyTag_valid g hk pt.1 pt.2.1 v pt.2.2 hv1 hne
+    simp only [List.foldlM_cons, happ, Option.bind_eq_bind, Option.bind_some]
+    rw [ih stags' _ hrest (fun t ht => hv t (by simp [ht]))]
+    · simp only [List.map_map, List.foldl_cons]
+      rfl
+    · simp only [List.map_map]
+      have : ((fun (n : SNode) => n.key) ∘ fun n => stepTag n (pt.1, pt.2.1, v)) = fun n => n.key := by
+        funext n; simp [stepTag_key]
+      rw [this]; exact hk
+    · intro s
+      rw [findSeqid_map g _ g.edges (fun n => stepTag_key n _) (fun n => stepTag_seqid n _), hf]
+
+theorem specUnion_tags_nil (bs : List Block) : ∀ n ∈ (specUnion bs).nodes, n.tags = [] := by
+  intro n hn
+  simp only [specUnion, List.mem_flatMap, List.mem_map] at hn
+  obtain ⟨_, _, _, _, rfl⟩ := hn
+  rfl
+
+theorem addEdges_eq_foldl (g : SGraph) (es : List (Nat × Nat)) :
+    es.foldl (fun (g : SGraph) (e : Nat × Nat) => g.addEdge e.1 e.2) g = addEdges g es := rfl
+
+/-- the name a node gets from the terminal renamings: the last one naming its block, if it has degree one -/
+def renameOf (g1 : SGraph) (mods : List (Nat × String)) (n : SNode) : SNode :=
+  match (mods.filter fun m => n.seqid == some m.1 && g1.degree n.key == 1).getLast? with
+  | some m => { n with resname := m.2 }
+  | none => n
+
+theorem renameOf_frame (g1 : SGraph) (mods : List (Nat × String)) (n : SNode) :
+    (renameOf g1 mods n).key = n.key ∧ (renameOf g1 mods n).seqid = n.seqid ∧ (renameOf g1 mods n).tags = n.tags := by
+  unfold renameOf
+  split <;> exact ⟨rfl, rfl, rfl⟩
+
+theorem node_final (g1 : SGraph) (mods : List (Nat × String)) (stags : List (Nat × String × String)) (n : SNode)
+    (htn : n.tags = []) :
+    stags.foldl stepTag (renameOf g1 mods n) =
+      { renameOf g1 mods n with
+        tags := (stags.filter fun t => (renameOf g1 mods n).seqid == some t.1).foldl (fun a t => a.set t.2.1 t.2.2) [] } := by
+  rw [stepTag_fold, (renameOf_frame g1 mods n).2.2, htn]
+
+/-- the whole of `generate_seq_graph` + terminal renamings + labels is the specification -/
+theorem genGraph_spec (bs : List Block) (cs : List (Nat × Nat × List (Nat × Nat))) (mods : List (Nat × String))
+    (ptags : List (Nat × String × List (String × Bool))) (stags : List (Nat × String × String))
+    (hp : ptags.mapM (fun t => (pickCertain t.2.2).map fun v => (t.1, t.2.1, v)) = some stags)
+    (hv : ∀ t ∈ stags, ∃ b, bs[t.1]? = some b ∧ b.names ≠ []) :
+    genGraph bs cs mods ptags = specGenSeq bs (flatConnects cs) mods stags := by
+  unfold genGraph specGenSeq
+  rw [unionBlocks_spec, connects_fold bs cs _ rfl]
+  cases hces : (flatConnects cs).mapM (fun q => specConnectEdge bs q.1 q.2.1 q.2.2.1 q.2.2.2) with
+  | none => rfl
+  | some ces =>
+    simp only [Option.map_some, Option.bind_some, addEdges_eq_foldl]
+    have hvalid : stags.any (fun t => decide (t.1 ≥ bs.length) || (bs.getD t.1 ⟨[], []⟩).names.isEmpty) = false := by
+      rw [List.any_eq_false]
+      intro t ht
+      obtain ⟨b, hb, hbn⟩ := hv t ht
+      have hlt : t.1 < bs.length := by
+        rcases Nat.lt_or_ge t.1 bs.length with h | h
+        · exact h
+        · rw [List.getElem?_eq_none h] at hb; cases hb
+      have hget : bs.getD t.1 ⟨[], []⟩ = b := by
+        rw [List.getD_eq_getElem?_getD, hb]; rfl
+      have : b.names.isEmpty = false := by cases hn : b.names with
+        | nil => exact absurd hn hbn
+        | cons _ _ => rfl
+      rw [hget, this]
+      simp only [Bool.or_false, Bool.not_eq_true, decide_eq_false_iff_not]
+      omega
+    rw [hvalid]
+    simp only [Bool.false_eq_true, if_false]
+    rw [mods_nodes]
+    generalize hg1 : addEdges (specUnion bs) ces = g1
+    have hg1n : g1.nodes = (specUnion bs).nodes := by rw [← hg1, addEdges_nodes]
+    have hnodes1 : g1.nodes.map (fun n => mods.foldl (stepMod (terminalNodes g1)) n) = g1.nodes.map (renameOf g1 mods) := by
+      apply List.map_congr_left
+      intro n hn
+      rw [stepMod_last, terminal_contains _ n hn]
+      rfl
+    rw [hnodes1]
+    rw [tags_foldM bs ptags stags _ hp hv]
+    · simp only [List.map_map]
+      congr 2
+      apply List.map_congr_left
+      intro n hn
+      have htn : n.tags = [] := by
+        rw [hg1n] at hn
+        exact specUnion_tags_nil bs n hn
+      exact node_final g1 mods stags n htn
+    · simp only [List.map_map]
+      have : ((fun (n : SNode) => n.key) ∘ renameOf g1 mods) = fun n => n.key := by
+        funext n; exact (renameOf_frame g1 mods n).1
+      rw [this, hg1n, specUnion_keys]
+      exact List.nodup_range
+    · intro s
+      rw [findSeqid_map g1 _ _ (fun n => (renameOf_frame g1 mods n).1) (fun n => (renameOf_frame g1 mods n).2.1)]
+      exact findSeqid_congr _ _ hg1n s
 
 
 end PolyplyVerif.Proofs.Seq
